@@ -5,6 +5,7 @@ from props.common import *
 from props.vhmcommon import *
 
 HARNESSES = harnesses('quick')
+LEVEL = 'exploration'
 ASSUMPTIONS = [
     'SC interleavings only; every explored history is checked exactly against the map specification (values included), plus a quiescent traversal and lock-free probes of every key',
     'writers spin on bucket locks: a thread whose reads see no change is descheduled until the lock word is written (xvrt spin detection)',
